@@ -87,6 +87,11 @@ func (p Parser) Parse(src io.Reader) (f File) {
 			}
 			f.Groups = append(f.Groups, g...)
 		} else {
+			// Looking for rules anywhere in the document walks into every alias, each time it's used.
+			if err := checkAliases(&doc, map[*yaml.Node]struct{}{}, map[*yaml.Node]int{}); err != nil {
+				f.Error = ParseError{Err: err, Line: doc.Line}
+				return f
+			}
 			f.Groups = append(f.Groups, p.parseNode(&doc, nil, nil, 0, 0, cr.lines)...)
 		}
 
@@ -100,6 +105,45 @@ To allow for multi-document YAML files set parser->relaxed option in pint config
 		}
 	}
 	return f
+}
+
+// maxExpandedNodes is how big a document can get when every alias is replaced with the value of its anchor.
+const maxExpandedNodes = 1000000
+
+// checkAliases returns an error if an anchor contains an alias of itself (yaml.v3 builds a cyclic graph of nodes
+// for that) or if the document is too big to walk once all aliases are expanded.
+func checkAliases(node *yaml.Node, path map[*yaml.Node]struct{}, sizes map[*yaml.Node]int) error {
+	_, err := expandedSize(node, path, sizes)
+	return err
+}
+
+func expandedSize(node *yaml.Node, path map[*yaml.Node]struct{}, sizes map[*yaml.Node]int) (size int, err error) {
+	if node.Kind == yaml.AliasNode && node.Alias != nil {
+		if _, ok := path[node.Alias]; ok {
+			return 0, fmt.Errorf("anchor %q contains an alias of itself", node.Value)
+		}
+		if size, ok := sizes[node.Alias]; ok {
+			return size, nil
+		}
+		size, err = expandedSize(node.Alias, path, sizes)
+		sizes[node.Alias] = size
+		return size, err
+	}
+	if node.Anchor != "" {
+		path[node] = struct{}{}
+		defer delete(path, node)
+	}
+	size = 1
+	for _, child := range node.Content {
+		var n int
+		if n, err = expandedSize(child, path, sizes); err != nil {
+			return size, err
+		}
+		if size += n; size > maxExpandedNodes {
+			return size, errors.New("document contains excessive aliasing")
+		}
+	}
+	return size, nil
 }
 
 func (p *Parser) parseNode(node, parent *yaml.Node, group *Group, offsetLine, offsetColumn int, contentLines []string) (groups []Group) {
